@@ -29,6 +29,29 @@ pub struct StateV01 {
     predicate: PredicateWrapper,
 }
 
+impl StateV01 {
+    /// The declared `predicateType` must name the format of the predicate
+    /// that the statement actually contains.
+    pub(crate) fn check_predicate_type(&self) -> Result<()> {
+        let actual = match self.predicate {
+            PredicateWrapper::LinkV0_2(_) => PredicateVer::LinkV0_2,
+            PredicateWrapper::SLSAProvenanceV0_1(_) => {
+                PredicateVer::SLSAProvenanceV0_1
+            }
+            PredicateWrapper::SLSAProvenanceV0_2(_) => {
+                PredicateVer::SLSAProvenanceV0_2
+            }
+        };
+        if self.predicate_type != actual {
+            return Err(Error::AttestationFormatDismatch(
+                self.predicate_type.into(),
+                actual.into(),
+            ));
+        }
+        Ok(())
+    }
+}
+
 impl StateLayout for StateV01 {
     fn version(&self) -> StatementVer {
         StatementVer::V0_1
